@@ -883,7 +883,7 @@ Definition e_set_item_name (h : N) (new_name : list N) : W unit :=
                             | re :: rr =>
                               do rn <- get_node re;
                               match n_content rn with
-                              | [] => wpanic "elementraw.rs set_item_name: ref_elem_locked.content[0]"
+                              | [] => set_node re (set_content rn [CData (DString refpath_new)])   (* fix 8b342ea: push when empty *)
                               | _ :: tl => set_node re (set_content rn (CData (DString refpath_new) :: tl))
                               end;; upd_refs rr
                             end) reflist;;
